@@ -25,6 +25,8 @@ def reason(exc: BaseException) -> str:
         return "zero-field"
     if "different phase references" in m:
         return "phase-refs"
+    if "bottom detuning" in m:
+        return "dmm-bottom"
     if "SLM" in m:
         return "slm"
     return type(exc).__name__
@@ -64,9 +66,11 @@ def mech_of(ev: Event, parts: list[str]) -> str:
     if ev.name in EOM_RETARGET and rs == "max-seq-duration":
         # the wait-for-fall delay / EOM block end is committed before the device maximum is checked
         return "partial:eom-or-retarget-over-max-sequence-duration"
-    if ev.name == "config_slm_mask" and "channels" in parts:
+    # the automatic SLM-mask pulse on the DMM was *refused* for a documented reason (not: crashed)
+    documented = rs in ("min-duration", "max-duration", "max-seq-duration", "dmm-bottom")
+    if ev.name == "config_slm_mask" and "channels" in parts and documented:
         return "partial:slm-mask-dmm-autopulse-refused"
-    if ev.name in ("add", "add_eom_pulse") and slm and "slm-waiting" in parts:
+    if ev.name in ("add", "add_eom_pulse") and slm and "slm-waiting" in parts and documented:
         return "partial:slm-mask-dmm-autopulse-refused"
     if ev.name == "declare_channel" and "channels" in parts and ev.op.get("initial_target") is not None:
         return "partial:declare_channel-initial-target-refused"
